@@ -223,6 +223,13 @@ def run(c, chk):
     c04.run(c, sub)
     sub.done('value conversion')
 
+    # ---- R5.12: print/parse reaches a fixed point: a comment line replaces the pending annotation, it is never added to it
+    if not isinstance(chk, report.SubCheck):
+        from . import c15 as _c15x
+        chk.rule('R5.12', 'a comment token has no effect other than replacing the pending annotation (rule R15.1 of C15): the "# name=value" line of an unset option does not grow the next annotation')
+        sub15 = report.SubCheck(chk, 'R5.12', 'C15', only=('R15.1',))
+        _c15x.run(c, sub15)
+        sub15.done('comment tokens')
     # ---- R5.11: the reader decodes what the writer wrote by the rules of the language
     if not isinstance(chk, report.SubCheck):
         from . import c03 as _c03x
